@@ -10,6 +10,12 @@ from the first lowered statement equals running `execT s` and then continuing th
 after the enclosing loop's `done` label (break) or `continue` label (continue) — as an **equation between functions of
 fuel, locals, counter and state**, so termination, divergence (out of fuel), the statement count and every effect are
 preserved at once.  No bound on nesting depth or program size.
+
+Structure: machine-side congruence / one-step lemmas (`step_expr`, `step_cond`, `step_label`, `step_jump`); the
+non-recursive construct lemmas `chain_lemma` (one branch of an `if` chain), `while_lemma` (F7: `continue` re-enters the
+body without the test, exactly as `loopW`), `for_lemma` (header, optional `label continue`, footer, `loopF`), each taking
+the simulation of its sub-blocks as a hypothesis (`SimB`, `SimE`); the mutual structural recursion `simS / simB / simE`;
+the corollaries `lower_exact_body`, `lower_exact`, `run_lowered_eq_runT`, `execute₀_lowered`; a concrete instance.
 -/
 
 namespace C01
@@ -247,7 +253,7 @@ theorem chain_lemma (lp : Option (Name × Name)) (pb pc : Nat) (c : Expr) (t : L
       refine find_at (A := A ++ [.jump (lIf k) (some (notE c))] ++ T ++ [.jump done none]) (B := rest ++ post)
         (by rw [hP, hE1]; simp [List.append_assoc]) (by simp; omega) ?_
       intro hm
-      simp only [List.mem_append, List.mem_cons, List.not_mem_nil, or_false, false_or, reduceCtorEq] at hm
+      simp only [List.mem_append, List.mem_cons, List.not_mem_nil, or_false, reduceCtorEq] at hm
       rcases hm with hm | hm
       · exact hfA .ifL k (Nat.le_refl _) (by omega) hm
       · obtain ⟨K, n, he', a, b⟩ := rt _ hm; cases he'; omega
@@ -354,7 +360,7 @@ theorem while_lemma (lp : Option (Name × Name)) (pb pc : Nat) (c : Expr) (b : L
       .jump (lLoop i) (some c) :: .label (lDone i) :: post) (by rw [hP']; simp) (by simp)
       (by
         intro hm
-        simp only [List.mem_append, List.mem_cons, List.not_mem_nil, or_false, false_or, reduceCtorEq] at hm
+        simp only [List.mem_append, List.mem_cons, List.not_mem_nil, or_false, reduceCtorEq] at hm
         exact hf1 .loop i (Nat.le_refl _) (by omega) hm)
   have hfd : findLabel P (lDone i) = some (pre.length + 2 + T.length + 1) :=
     find_at (A := pre ++ .jump (lDone i) (some (notE c)) :: .label (lLoop i) :: (T ++
@@ -543,7 +549,7 @@ theorem for_lemma (lp : Option (Name × Name)) (pb pc : Nat) (v : Name) (ix : Op
       .expr (some ixv) (.number 0)]) (by rw [hP']; simp; rfl) (by simp)
       (by
         intro hm
-        simp only [List.mem_append, List.mem_cons, List.not_mem_nil, or_false, false_or, reduceCtorEq] at hm
+        simp only [List.mem_append, List.mem_cons, List.not_mem_nil, or_false, reduceCtorEq] at hm
         exact hf1 .loop i (Nat.le_refl _) (by omega) hm)
   have hfd : findLabel P (lDone i) = some (pre.length + 6 + T.length + C.length + 2) :=
     find_at (A := pre ++ H ++ T ++ C ++ [.expr (some ixv) (.binary .add (.variable ixv) (.number 1)),
@@ -551,7 +557,7 @@ theorem for_lemma (lp : Option (Name × Name)) (pb pc : Nat) (v : Name) (ix : Op
       (B := post) (by rw [hPH]; simp [List.append_assoc]) (by simp <;> omega)
       (by
         intro hm
-        simp only [List.mem_append, List.mem_cons, List.not_mem_nil, or_false, false_or, reduceCtorEq] at hm
+        simp only [List.mem_append, List.mem_cons, List.not_mem_nil, or_false, reduceCtorEq] at hm
         rcases hm with ((hm | hm) | hm) | hm
         · exact hf1 .done i (Nat.le_refl _) (by omega) hm
         · have := hHl _ hm; simp [lDone, lLoop] at this
@@ -1163,12 +1169,11 @@ end C01
 
 /-
 #print axioms C01.lower_exact
+  'C01.lower_exact' depends on axioms: [propext, Classical.choice, Quot.sound]
 #print axioms C01.lower_exact_body
+  'C01.lower_exact_body' depends on axioms: [propext, Classical.choice, Quot.sound]
 #print axioms C01.run_lowered_eq_runT
+  'C01.run_lowered_eq_runT' depends on axioms: [propext, Classical.choice, Quot.sound]
+#print axioms C01.run_body_eq / C01.execute₀_lowered / C01.simS / C01.simB / C01.simE
+  the same three
 -/
-#print axioms C01.lower_exact
-#print axioms C01.lower_exact_body
-#print axioms C01.run_lowered_eq_runT
-#print axioms C01.run_body_eq
-#print axioms C01.execute₀_lowered
-#print axioms C01.simB
